@@ -334,21 +334,21 @@ def rarg(rng):
 
 
 def gen_tprogram(rng):
-    n = rng.choice([0, 1, 2, 3, 5, 8, 12])
-    ops = list(range(1, 17)) + TS_UNKNOWN[1:4]
+    """1-3 BUILD blocks; every defined opcode >= 5 % of all steps (measured: see evidence `by_stream`/RULE); unknown opcodes ~7 %"""
+    n = rng.choice([0, 1, 2, 3, 5, 8, 12, 20, 30])
+    known = [op for op in range(1, 17) if op not in (7, 14)]
     steps = []
     for _ in range(n):
-        op = rng.choice(ops)
-        if op == 7:
-            steps.append(("build", rng.choice([0, 1, 0, 1, 2, 7, 0xFFFFFFFF])))
-        elif op in TS_ENABLE:
+        if rng.random() < 0.1:
+            steps.append(("skip", rng.choice(TS_UNKNOWN + [14, 14, 17])))
+            continue
+        op = rng.choice(known)
+        if op in TS_ENABLE:
             steps.append(("en", op))
-        elif op in TS_ARG:
-            steps.append(("arg", op, rarg(rng)))
         else:
-            steps.append(("skip", rng.choice(TS_UNKNOWN) if rng.random() < 0.3 else op))
+            steps.append(("arg", op, rarg(rng)))
     for _ in range(rng.choice([1, 1, 2, 3])):
-        steps.insert(rng.randrange(0, len(steps) + 1), ("build", rng.choice([0, 1])))
+        steps.insert(rng.randrange(0, len(steps) + 1), ("build", rng.choice([0, 1, 0, 1, 2, 7, 0xFFFFFFFF])))
     return steps
 
 
@@ -426,6 +426,25 @@ def gen(tier, rng, shard, nshards):
         if rng.random() < 0.5:
             d = bytes(x & 0x1F if i % 4 == 3 else 0 for i, x in enumerate(d))
         yield emit("tr", f"tr metadata {C.hx(d)}")
+
+    # every prefix of one program per shard (truncated tails at every byte position)
+    steps = gen_tprogram(rng)[:8]
+    data = enc_transform(steps)[:120]
+    for cut in range(len(data) + 1):
+        yield emit("tr", f"tr metadata {C.hx(data[:cut])}")
+        yield emit("cfg", f"cfg - 13 3 {C.hx(data[:cut])}")
+    data = enc_recover([(rng.choice(list(RC_LEN) + list(RC_FLAG) + [7]), rng.getrandbits(32)) for _ in range(8)])
+    for cut in range(len(data) + 1):
+        yield emit("rc", f"rc {C.hx(data[:cut])}")
+    data = enc_execute([(6, 0x21, b"ntdll", 1, b"RtlUserThreadStart", 1), (3,), (7, 0, b"k32", 0, b"f", 2), (8,)])
+    for cut in range(len(data) + 1):
+        yield emit("ex", f"ex {C.hx(data[:cut])}")
+    data = enc_injt(b"\x90\x90", b"ABC") + b"zz"
+    for cut in range(len(data) + 1):
+        yield emit("it", f"it {C.hx(data[:cut])}")
+    data = enc_gargle([(1, 2), (0, 0), (0x1000, 0x2000)])
+    for cut in range(len(data) + 1):
+        yield emit("gg", f"gg {C.hx(data[:cut])}")
 
     # ---------------- recover programs
     rc_ops = list(RC_LEN) + list(RC_FLAG) + [5, 7, 14, 17]
@@ -893,7 +912,65 @@ def _der_expect(ss):
     return out
 
 
+def ref_decode_transform(data):
+    """Strict reference decoder (inverse of enc_transform) for well-formed programs only; None otherwise.
+    Used when a line is not in EXPECT (shrunk candidates, replays)."""
+    steps, i = [], 0
+    while i < len(data):
+        if len(data) - i < 4:
+            return steps  # padding shorter than an opcode
+        op = int.from_bytes(data[i:i + 4], "big")
+        i += 4
+        if op == 0:
+            return steps
+        if op == 7:
+            if len(data) - i < 4:
+                return None
+            steps.append(("build", int.from_bytes(data[i:i + 4], "big")))
+            i += 4
+        elif op in TS_ENABLE:
+            steps.append(("en", op))
+        elif op in TS_ARG:
+            if len(data) - i < 4:
+                return None
+            n = int.from_bytes(data[i:i + 4], "big")
+            i += 4
+            if len(data) - i < n:
+                return None
+            steps.append(("arg", op, data[i:i + n]))
+            i += n
+        else:
+            steps.append(("skip", op))
+    return steps
+
+
+def ref_decode_recover(data):
+    steps, i = [], 0
+    while i < len(data):
+        if len(data) - i < 4:
+            return None
+        op = int.from_bytes(data[i:i + 4], "big")
+        i += 4
+        if op == 0:
+            return steps
+        if op in RC_LEN:
+            if len(data) - i < 4:
+                return None
+            steps.append((op, int.from_bytes(data[i:i + 4], "big")))
+            i += 4
+        else:
+            steps.append((op, 0))
+    return steps
+
+
 def oracle(stream, line, out):
+    if (stream, line) not in EXPECT and stream in ("tr", "rc"):
+        w = line.split()
+        if stream == "tr":
+            p = ref_decode_transform(C.unhx(w[2]))
+            return None if p is None else out == view_transform(p, w[1])
+        p = ref_decode_recover(C.unhx(w[1]))
+        return None if p is None else out == view_recover(p)
     if stream == "der":
         w = line.split()
         ss = [(int(w[i]), int(w[i + 1]), C.unhx(w[i + 2])) for i in range(1, len(w), 3)]
